@@ -262,3 +262,66 @@ func VH_C02_or_then_and() {
 		vAssert("C02.ota.order_of_last_field", got[j-1].(*vObj).A >= got[j].(*vObj).A)
 	}
 }
+
+// ---- objects whose files leave out zero fields ----
+
+type vOmit struct {
+	Item
+	A int64  `sod:"index"`
+	B int64  `json:",omitempty"`
+	S string `json:"s,omitempty"`
+	P *int64 `json:"p,omitempty"`
+}
+
+// VH_C02_omitempty: a field left out of an object's file (omitempty, or a
+// file written by another tool) reads as the zero value — for that object, and
+// without borrowing anything from the object scanned before it: searches on
+// the un-indexed fields B and S with arbitrary probes, after a restart, denote
+// exactly the matching objects, and every object reads back with its own
+// values.
+func VH_C02_omitempty() {
+	cfg := vhCfgs[[]int{0, 1}[vChoice("cfg", 2)]]
+	root := vTempDir()
+	db := Open(root)
+	LowercaseNames = false
+	vAssert("C02.omit.create", db.Create(&vOmit{}, vhSchema(cfg)) == nil)
+	seven := int64(7)
+	objs := []*vOmit{
+		{A: 1, B: 7, S: "x", P: &seven},
+		{A: 2},
+		{A: 3, B: vInt64("B3"), S: "x"},
+		{A: 4},
+	}
+	for _, o := range objs {
+		vAssert("C02.omit.insert", db.InsertOrUpdate(o) == nil)
+	}
+	vAssert("C02.omit.close", db.Close() == nil)
+	db = Open(root)
+	p := vInt64("p")
+	op := vhOps[vChoice("_op", len(vhOps))]
+	s := db.Search(&vOmit{}, "B", op, p)
+	vAssert("C02.omit.search", s.Err() == nil)
+	got, err := s.Collect()
+	vAssert("C02.omit.collect", err == nil)
+	cnt := map[string]int{}
+	for _, g := range got {
+		cnt[g.UUID()]++
+	}
+	for _, o := range objs {
+		want := 0
+		if vhCmp(op, o.B, p) {
+			want = 1
+		}
+		vAssert("C02.omit.exactly_matching", cnt[o.UUID()] == want)
+	}
+	se := db.Search(&vOmit{}, "S", "=", "")
+	vAssert("C02.omit.search_empty_string", se.Err() == nil && se.Len() == 2)
+	for _, o := range objs {
+		g, gerr := db.GetByUUID(&vOmit{}, o.UUID())
+		vAssert("C02.omit.get", gerr == nil)
+		if gerr == nil {
+			x := g.(*vOmit)
+			vAssert("C02.omit.own_values", vAnd(x.A == o.A, x.B == o.B) && x.S == o.S && (x.P == nil) == (o.P == nil))
+		}
+	}
+}
